@@ -11,14 +11,14 @@ import (
 // ---- schema ----
 
 type column struct {
-	name    string
-	str     bool   // VARCHAR(8) instead of INT
-	notNull bool
-	def     g.Expr // nil: no DEFAULT clause
-	defExpr bool   // default is a parenthesised expression
-	gen     g.Expr // nil: base column
-	virtual bool   // generated column is VIRTUAL (else STORED)
-	indexed bool
+	name      string
+	str       bool // VARCHAR(8) instead of INT
+	notNull   bool
+	def       g.Expr // nil: no DEFAULT clause
+	defExpr   bool   // default is a parenthesised expression
+	gen       g.Expr // nil: base column
+	virtual   bool   // generated column is VIRTUAL (else STORED)
+	indexed   bool
 	indexDead bool // known finding D8 hit: this column's index is no longer probed
 }
 
@@ -277,6 +277,8 @@ type stmt struct {
 	sets   []assign
 	ck     *check
 	sql    string
+	// genDefault: the SET list starts with `<generated column> = DEFAULT`
+	genDefault bool
 }
 
 func renderInsert(verb string, s *stmt) string {
@@ -356,6 +358,9 @@ func (t *table) applyUpdate(old row, sets []assign, enforce bool) (row, error) {
 	for _, a := range sets {
 		c := t.col(a.col)
 		if c.gen != nil {
+			if a.e == nil {
+				continue // SET g = DEFAULT on a generated column is legal and changes nothing by itself
+			}
 			return nil, &merr{"gen-value"}
 		}
 		switch {
@@ -406,7 +411,7 @@ func (t *table) apply(st *state, s *stmt, enforce bool) (*state, error) {
 		}
 	case "update":
 		for _, a := range s.sets {
-			if t.col(a.col).gen != nil {
+			if t.col(a.col).gen != nil && a.e != nil {
 				return nil, &merr{"gen-value"}
 			}
 		}
